@@ -490,7 +490,11 @@ func (cs *Contracts) parseFile(fname, pkg, prefix string) {
 				c.Site = r[1 : 1+j]
 				r = r[j+2:]
 				c.Occ = 1
-				if strings.HasPrefix(r, "#") {
+				if strings.HasPrefix(r, "#*") {
+					// every statement whose source line contains the text
+					c.Occ = -1
+					r = r[2:]
+				} else if strings.HasPrefix(r, "#") {
 					fmt.Sscanf(r[1:], "%d", &c.Occ)
 					r = strings.TrimLeft(r[1:], "0123456789")
 				}
